@@ -93,6 +93,19 @@ func (cw *c15World) count(op string, code int) {
 func (cw *c15World) clientDone() { cw.done++ }
 
 //go:norace
+func (cw *c15World) progressState() uint64 {
+	var x uint64
+	for i := range cw.opN {
+		for _, v := range cw.opN[i] {
+			if v > 0 {
+				x |= 1 << uint(i)
+			}
+		}
+	}
+	return cw.abstractState(x<<8 | uint64(cw.done))
+}
+
+//go:norace
 func (cw *c15World) allDone() bool { return cw.ready && (cw.setupErr != "" || cw.done == cw.nClients) }
 
 //go:norace
@@ -272,7 +285,16 @@ func (cw *c15World) op(client int) {
 		}
 		cw.count("unload-or-load", r.code)
 	default: // OpenAI-compatible endpoints and the rest
-		switch d("v1", 6) {
+		switch d("v1", 9) {
+		case 6:
+			r := cw.apiDo(ctx, "GET", "/v1/models/"+name, nil)
+			cw.count("v1-models", r.code)
+		case 7:
+			r := cw.apiJSON(ctx, "POST", "/v1/completions", openai.CompletionRequest{Model: name, Prompt: "complete this", Stream: d("stream", 2) == 0})
+			cw.count("v1-chat", r.code)
+		case 8:
+			r := cw.apiDo(ctx, "HEAD", "/api/tags", nil)
+			cw.count("tags", r.code)
 		case 4:
 			// the registry is unreachable: exercises the pull handler, its goroutine and the error path
 			r := cw.apiJSON(ctx, "POST", "/api/pull", api.PullRequest{Model: "registry.sim/library/" + name, Stream: boolp(d("stream", 2) == 0)})
@@ -381,7 +403,17 @@ func runC15(t *testing.T, tape *verifsim.Tape, prop, tier string, keepLog bool) 
 				verifsim.Go("client"+strconv.Itoa(i), func() { cw.clientTask(id) })
 			}
 		})
+		states := map[uint64]bool{}
+		sim.OnStep = func() {
+			if len(states) < 2048 {
+				states[cw.progressState()] = true
+			}
+		}
 		stop := sim.RunUntil(cw.allDone, 2*time.Hour, 600000)
+		sim.OnStep = nil
+		for h := range states {
+			res.States = append(res.States, h)
+		}
 		res.Info["stop_"+stop.String()]++
 		if cw.setupErr != "" {
 			res.HarnessErr = "setup failed: " + cw.setupErr
